@@ -326,7 +326,7 @@ def gen_cases(rng, n, tags=None):
     # WRITTEN FORMS of definitions and operands (deliberate, every form several times per run)
     for form in UW.FORMS:
         made = tries = 0
-        while made < max(2, n // 60) and tries < 60:
+        while made < max(4, n // 40) and tries < 120:
             tries += 1
             h = written_history(rng, form)
             if h is None:
